@@ -21,7 +21,7 @@ TRUSTED_BASE = [
     "no axioms: every theorem of coq/C18/Properties.v is 'Closed under the global context'",
     "translator checks/C18.py:gen (regex scrape of lib/detail/minicoro.nelua and lib/coroutine.nelua: both enums, storage size, MCO_ZERO_MEMORY, description strings, status strings, panic messages, unregister/destroy order)",
     "extraction: Require Extraction + ExtrOcamlBasic only; Z/positive/nat/string stay Coq inductives; no Extract Constant of our own",
-    "coq/C18/glue.ml (local copy of the needed part of ocaml/zutil.ml: the extracted model contains Coq's string type, which shadows OCaml's inside zutil.ml) + coq/C18/driver.ml (script text -> model ops, model lines -> text; encodes typed values as little-endian bytes)",
+    "coq/C18/glue.ml (local copy of the needed part of ocaml/zutil.ml: the extracted model contains Coq's string type, which shadows OCaml's inside zutil.ml) + coq/C18/codriver.ml (script text -> model ops, model lines -> text; encodes typed values as little-endian bytes)",
     "harness/C18/codriver.nelua (schedule interpreter on the real coroutine library; nothing of coroutine.nelua / minicoro is re-implemented), harness/C18/oracle.py (reference semantics), gcc, the real Nelua compiler built from /repo/src",
     "modelled rather than verified: coroutine.nelua and the C functions of minicoro are mirrored by hand in coq/C18/Model.v; the context switch itself (assembly) and the intactness of suspended frames are outside the model and observed only through per-frame canaries",
 ]
@@ -564,10 +564,18 @@ def build_model(ctx):
     d = vlib.coq_dir(ID)
     with vlib.Lock("coq-" + ID):
         rc, o, e = vlib.sh(["ocamlfind", "ocamlopt", "-O3", "-w", "-a", "-package", "str", "-linkpkg", "model.mli", "model.ml",
-                            "glue.ml", "driver.ml", "-o", "driver"], cwd=d, timeout=900)
+                            "glue.ml", "codriver.ml", "-o", "codriver"], cwd=d, timeout=900)
     if rc != 0:
         raise RuntimeError("ocaml build failed:\n" + (o + e)[-3000:])
-    return os.path.join(d, "driver")
+    return os.path.join(d, "codriver")
+
+
+def setup(ctx):
+    """MANIFEST.setup_cmd hook: the model driver is built here (not by vlib.ocaml_build: see glue.ml),
+    and the two implementation-side drivers of the quick tier are compiled once."""
+    build_model(ctx)
+    build_driver(ctx, "gc", [])
+    build_driver(ctx, "nogc", ["-P", "nogc"])
 
 
 def build_driver(ctx, tag, extra):
@@ -582,7 +590,7 @@ def build_driver(ctx, tag, extra):
         if os.path.exists(out):
             return out
         tmp = out + ".tmp%d" % os.getpid()
-        rc, o, e = vlib.nelua_build(HARNESS, tmp, extra=list(extra))
+        rc, o, e = vlib.nelua_build(HARNESS, tmp, extra=list(extra), cache_dir=os.path.join(ctx.work, "nelua-cache-%s-%s" % (tag, h)))
         if rc != 0 or not os.path.exists(tmp):
             raise RuntimeError("cannot build the coroutine driver (%s): %s" % (tag, (o + e)[-1500:]))
         os.rename(tmp, out)
@@ -736,9 +744,11 @@ def correspond(ctx):
             evaluations += ncmd
             chain = 0
             for l in ilines:
-                if "|false|" in l:
-                    e = l.split("|false|", 1)[1]
-                    err_hist[e] = err_hist.get(e, 0) + 1
+                f = l.split("|")
+                if len(f) >= 3 and f[1] == "false" and f[0].rsplit(" ", 1)[-1] in ("resume", "yield", "push", "pop", "peek", "drop", "destroy"):
+                    err_hist[f[2]] = err_hist.get(f[2], 0) + 1
+                elif l.startswith(("panic|", "abort|")):
+                    err_hist["(panic) " + l.split("|", 1)[1][:60]] = err_hist.get("(panic) " + l.split("|", 1)[1][:60], 0) + 1
             sw = sum(1 for l in ilines if " resume|true|" in l)
             if sw >= 3 and any(" pop|true|" in l for l in ilines):
                 nontrivial.add(tuple(sc))
